@@ -17,7 +17,7 @@ if os.path.exists(vl):
         if m:
             ver[f'{m.group(1)}/{m.group(2)}'] = dict(demo_clean=int(m.group(3)), demo_mutated=int(m.group(4)), baseline=int(m.group(5)))
 rows = []
-for d in sorted(glob.glob(os.path.join(here, 'seeded', 'C??', '[ABCD]'))):
+for d in sorted(glob.glob(os.path.join(here, 'seeded', 'C??', '[ABCDEF]'))):
     pid, x = d.split('/')[-2:]
     key = f'{pid}/{x}'
     notes = open(os.path.join(d, 'notes.md')).read() if os.path.exists(os.path.join(d, 'notes.md')) else ''
